@@ -1,8 +1,69 @@
-(* C05 -- Ballotbox keeps stage points isolated and releases finished ones.  Property theorems only. *)
+(* C05 -- Ballotbox keeps stage points isolated and releases finished ones.  Property theorems only.
+   Model: C04/Model.v (isaac/states/ballotbox.go); the key prefixes are those of Gen/C05.v. *)
 From Coq Require Import ZArith List Bool String.
-From MV Require Import C04.Model C05.Model C05.Proofs.
+From MV Require Import C04.Model C04.POwn C05.Model C05.Proofs.
 Import ListNotations.
 
-(* the three key prefixes of the Go source (voterecords, newVoterecords, clean) agree and are not empty *)
-Theorem C05_prefixes_agree : pf_get pfx5 = pf_new pfx5 /\ pf_new pfx5 = pf_clean pfx5 /\ pf_new pfx5 <> EmptyString.
+(* The three key prefixes of the Go source (voterecords, newVoterecords, clean) agree and are not empty.
+   Every theorem below uses this; re-introducing the "sign-"/"sf-" mismatch breaks it. *)
+Theorem C05_prefixes_agree : pf_get pfx5 = pf_new pfx5 /\ pf_clean pfx5 = pf_new pfx5 /\ pf_new pfx5 <> EmptyString.
 Proof. exact prefixes_agree. Qed.
+
+(* Ownership, after ANY sequence of atomic steps (every interleaving of Vote / count / countHolded / deferred forward /
+   SetLastPoint / clean, any map iteration order, any behaviour of sync.Pool.Get): each key finds its own entry, no
+   record object is under two keys, a record under a key has that key's stage point and suffrage-confirm flag,
+   live / removed / pooled records are pairwise disjoint and without repetition, pooled records are zeroed. *)
+Theorem C05_ownership : forall e ops, Inv pfx5 (reach e ops).
+Proof. exact ownership. Qed.
+
+(* Isolation: a step that is not about key k (a vote for another key, a count of another record object, SetLastPoint,
+   clean, ...) leaves the record of k untouched, or releases it because the last point moved past it. *)
+Theorem C05_isolation : forall e ops o k i,
+  kget k (bx_vrs (reach e ops)) = Some i -> ~ about pfx5 o k i ->
+  kept_or_released (reach e ops) (fst (step pfx5 e (reach e ops) o)) k i.
+Proof. exact isolation. Qed.
+
+(* ... hence what Voted(p) reports is not influenced by other stage points *)
+Theorem C05_voted_isolation : forall e ops o p i,
+  kget (mkkey (pf_get pfx5) false p) (bx_vrs (reach e ops)) = Some i ->
+  ~ about pfx5 o (mkkey (pf_get pfx5) false p) i ->
+  let b' := fst (step pfx5 e (reach e ops) o) in
+  box_voted pfx5 p b' = box_voted pfx5 p (reach e ops) \/
+  (box_voted pfx5 p b' = [] /\ exists l, bx_last b' = Some l /\ sp_lt p (lp_sp l) = true).
+Proof. exact voted_isolation. Qed.
+
+(* Release: after clean() in any reachable state no key below the last point is left (plain or suffrage confirm),
+   every such record is in removed (once: Inv) and no longer found by its key, the records removed by the previous
+   cycle are in the pool (once: Inv), and the invariant still holds. *)
+Theorem C05_released_once : forall e ops,
+  let b := reach e ops in
+  let b' := box_clean pfx5 b in
+  Inv pfx5 b' /\
+  (forall i, In i (bx_removed b) -> In i (bx_pool b')) /\
+  match bx_last b with
+  | None => bx_vrs b' = bx_vrs b /\ bx_removed b' = []
+  | Some l =>
+      (forall k i, In (k, i) (bx_vrs b') -> sp_lt (snd k) (lp_sp l) = false) /\
+      (forall k i, In (k, i) (bx_vrs b) -> sp_lt (snd k) (lp_sp l) = true ->
+                   In i (bx_removed b') /\ kget k (bx_vrs b') = None)
+  end.
+Proof. exact released. Qed.
+
+(* ... and a pooled record is not read again before newVoterecords re-initialises it *)
+Theorem C05_pooled_inert : forall e b i el pv px,
+  r_sp (rec_of b i) = None ->
+  box_count pfx5 e i el pv px b = (b, []) /\
+  snd (box_held e i el pv px b) = [] /\ (forall j, rec_of (fst (box_held e i el pv px b)) j = rec_of b j).
+Proof. exact pooled_inert. Qed.
+
+(* The defect fixed by 1fd631b, kept as a theorem about the model with the old prefixes: one suffrage-confirm vote,
+   the last point moves on, two clean cycles => the record is in the pool while still stored under its key. *)
+Theorem C05_prefix_mismatch_refuted :
+  let b := fst (run bad_pfx w_env box_init w_ops) in
+  In 0%nat (live b) /\ In 0%nat (bx_pool b) /\ r_sp (rec_of b 0%nat) = None.
+Proof. exact mismatch_witness. Qed.
+
+(* non-vacuity: the same history with the prefixes of the current source releases the record *)
+Example C05_example :
+  let b := fst (run pfx5 w_env box_init w_ops) in live b = [] /\ bx_pool b = [0%nat].
+Proof. exact fixed_witness. Qed.
